@@ -233,6 +233,39 @@ def c05_ties(EoN, rng, n, stats):
     return lines, metas
 
 
+def c05_scripted_ties(EoN, sim, rng, n, stats):
+    """fast_SIS on draw SCRIPTS that contain the value 0 (a possible, measure-zero value of expovariate; the theorem
+    C05s_fast_SIS_starts_as_requested is about every script): infections and recoveries AT tmin.  Plain run and full-data run under the
+    same script; rows from the plain run (the summary of the object merges the rows at tmin), full data from the other"""
+    lines = []; metas = []
+    for i in range(n):
+        name = SIMS[i % 2]
+        case = gen_case(rng, name, nmin=2, nmax=6)
+        gc = case['gc']; N = len(gc.order)
+        sel = rng.sample(gc.order, rng.randint(1, min(2, N - 1)))
+        tmin = rng.choice([0, 2.5, -3]); tmax = tmin + 1.0
+        draws = [rng.choice([F(0), F(0), F(1, 4), F(1, 2), F(3, 4), F(2)]) for _ in range(600)]
+        kw = {'initial_infecteds': list(sel), 'tmin': tmin, 'tmax': tmax}
+        rp = {'sim': name, 'graph': gc.to_json(), 'i0': [repr(x) for x in sel], 'form': 'list', 'tmin': tmin, 'tmax': tmax, 'full': True, 'tie': 'scripted zero draws',
+              'draws': [str(d) for d in draws[:60]], 'checker': 'ic_sisb'}
+        s1 = R.Scripted(draws, gc.idmap); st1, v1 = R.run_impl(lambda: call_sim(EoN, case, dict(kw, return_full_data=False)), s1, sim)
+        s2 = R.Scripted(draws, gc.idmap); st2, v2 = R.run_impl(lambda: call_sim(EoN, case, dict(kw, return_full_data=True)), s2, sim)
+        if st1 == 'OUT' or st2 == 'OUT':
+            stats['script_out'] = stats.get('script_out', 0) + 1; continue
+        if st1 != 'OK' or st2 != 'OK':
+            metas.append((rp, 'EXC %s / %s' % (v1 if st1 == 'EXC' else 'ok', v2 if st2 == 'EXC' else 'ok'), None)); lines.append(None); continue
+        rows = R.canon_arrays(v1); hist, trans = R.canon_full(v2, gc, CODE)
+        if malformed(rows, hist, trans):
+            metas.append((rp, 'malformed output', None)); lines.append(None); continue
+        if s1.log != s2.log:
+            metas.append((rp, 'the two return modes made different calls to the random source under the same script (%d vs %d calls)' % (len(s1.log), len(s2.log)), None)); lines.append(None); continue
+        lines.append('ICSIS %d %d %s %s 1 %s %s %s' % (N, len(sel), ' '.join(str(gc.idmap[x]) for x in sel), qt(tmin), qt(tmax), rows_tokens(rows), full_tokens(hist, trans, N)))
+        metas.append((rp, None, rows[:3]))
+        stats['script_ties'] = stats.get('script_ties', 0) + 1
+        if any(h and h[0][1] == 1 for k, h in hist.items() if gc.order[k] not in sel): stats['script_head_I'] = stats.get('script_head_I', 0) + 1
+    return lines, metas
+
+
 def c05_rho(EoN, sim, rng, stats):
     """rho / nothing: int(round(N*rho)) (or 1) distinct nodes of the graph are I at tmin and the run starts from them (extracted
     ic_sis_rhob; its count is compared with Python's int(round(N*rho))); rho together with initial_infecteds: EoNError, nothing drawn,
@@ -540,6 +573,8 @@ def part(run, tier, pid, props, per):
         j = judge(run, pid, l1, m1, per, 'event-driven-SIS/extracted-checker')
         lt, mt = c05_ties(EoN, rng, 36 if tier == 'quick' else 600, stats)
         j += judge(run, pid, lt, mt, per, 'event-driven-SIS/ties-at-tmin')
+        ls, ms = c05_scripted_ties(EoN, sim, rng, 60 if tier == 'quick' else 1000, stats)
+        j += judge(run, pid, ls, ms, per, 'fast_SIS/scripted-ties-at-tmin')
         l2, m2, bad2 = c05_rho(EoN, sim, rng, stats)
         j += judge(run, pid, l2, m2, per, 'event-driven-SIS/rho')
         seen = set()
